@@ -57,6 +57,12 @@ var witnesses = []witness{
 	{"cover1", "svc", "basic_only", attrPass, "p:w d ", "", nil},
 	{"cover1", "svc", "basic_only", attrPass, "", "", nil},
 	{"cover1", "svc", "both", attrToken, "in body", "", nil},
+	// inherited requirement, credential in the query / body of THIS method while siblings use a header: untouched
+	{"cover3", "svc", "in_query", attrToken, "Bearer a b", "", nil},
+	{"cover3", "svc", "in_body", attrToken, "x y", "", nil},
+	{"cover3", "svc", "in_header", attrKey, "k 1 2", "", []string{"jwt"}},
+	{"cover3", "apilevel", "in_query", attrAToken, "Bearer t", "", nil},
+	{"cover3", "apilevel", "in_body", attrKey, "q r", "", []string{"oa"}},
 }
 
 func main() {
@@ -88,14 +94,22 @@ func main() {
 	}
 
 	// ---------------- tier A ----------------
-	var inhLines []string
+	var inhLines, insLines []string
 	if replayIn == nil {
-		inhLines, _ = tierA(res, *out, distinct)
+		inhLines, insLines = tierA(res, *out, distinct, nil)
+	} else if replayIn["tier"] == "A" {
+		var d dg.Design
+		db, _ := json.Marshal(replayIn["design"])
+		if err := json.Unmarshal(db, &d); err != nil {
+			panic(err)
+		}
+		inhLines, insLines = tierA(res, *out, distinct, &d)
 	}
 	writeLines(filepath.Join(*out, "cases_inherit.txt"), inhLines)
+	writeLines(filepath.Join(*out, "cases_ins.txt"), insLines)
 
 	// ---------------- tier B ----------------
-	nDesigns, nVals := 8, 12
+	nDesigns, nVals := 6, 12 // random designs on top of the 4 covering ones
 	if *tier == "thorough" {
 		nDesigns, nVals = 100, 12
 	}
@@ -114,7 +128,9 @@ func main() {
 		if err := json.Unmarshal(db, &d); err != nil {
 			panic(err)
 		}
-		addDesign(b, res, &builtDesign{D: &d}, &infos)
+		if replayIn["tier"] != "A" {
+			addDesign(b, res, &builtDesign{D: &d}, &infos)
+		}
 		designs[d.Name] = &d
 		if replayIn["tier"] == "B" {
 			ex := exchange{Stream: "replay", Design: d.Name, Service: fmt.Sprint(replayIn["service"]), Method: fmt.Sprint(replayIn["method"]), Creds: map[string]string{}}
@@ -135,7 +151,7 @@ func main() {
 			addDesign(b, res, bd, &infos)
 			designs[bd.D.Name] = bd.D
 		}
-		for i := 0; len(b.Items) < nDesigns+2 && i < nDesigns*3; i++ {
+		for i := 0; len(b.Items) < nDesigns+4 && i < nDesigns*3; i++ {
 			bd := randomDesign(rng.Fork(), i)
 			if bu := addDesign(b, res, bd, &infos); bu != nil {
 				designs[bd.D.Name] = bd.D
@@ -238,9 +254,11 @@ func main() {
 		}
 		return nil
 	}
-	if replayEx != nil {
-		if mi := find(replayEx.Design, replayEx.Service, replayEx.Method); mi != nil {
-			add(mi, *replayEx)
+	if replayIn != nil {
+		if replayEx != nil {
+			if mi := find(replayEx.Design, replayEx.Service, replayEx.Method); mi != nil {
+				add(mi, *replayEx)
+			}
 		}
 	} else {
 		for _, mi := range infos {
